@@ -361,7 +361,8 @@ def handshake_case(rng, B):
     psk = rng.choice([b"Induction", b"password1234", rand_bytes(rng, rng.randint(8, 20))])
     pmk = hashlib.pbkdf2_hmac("sha1", psk, ssid, 4096, 32)
     bssid, staA, staB, other = [rand_bytes(rng, 6) for _ in range(4)]
-    kind = rng.choice(["valid", "valid", "valid", "valid", "restart", "m1-again", "wrong-psk", "missing-m3", "reorder", "no-ap"])
+    kind = rng.choice(["valid", "valid", "valid", "valid", "restart", "m1-again", "wrong-psk", "missing-m3", "reorder", "no-ap",
+                       "rekey", "rekey"])
     two = rng.random() < 0.35
     ops = ["case"]
     evs = []          # (frame bytes, annotation or None)
@@ -395,6 +396,14 @@ def handshake_case(rng, B):
                 upto = rng.choice([1, 2, 3])
                 for n in range(1, upto + 1):
                     seq += [(old.msg(n), None)] * dup()
+        if kind == "rekey" and ap_known:
+            # one or two COMPLETE earlier handshakes of the same pair (re-association / PTK rekey, fresh nonces each time):
+            # every completion is learned and the keys of the LAST one are the ones installed (seeded/C09d)
+            for _ in range(rng.randint(1, 2)):
+                old = Attempt(rng, bssid, sta, pmk, rng.random() < 0.6, qos=False)
+                for n in (1, 2, 3):
+                    seq += [(old.msg(n), None)] * dup()
+                seq += [(old.msg(4), ("learn", old))]
         if kind == "m1-again":
             seq += [(att.msg(1), None), (att.msg(2), None)]
             seq += [(att.msg(1, replay_inc=1), None)]
@@ -443,7 +452,9 @@ def handshake_case(rng, B):
             merged.append((None, None, h + rand_bytes(rng, rng.randint(0, 40)), None))
     for sta, att, frame, ann in merged:
         line = f"wpa {hx(frame)}"
-        if ann == "learn" and att is not None:
+        if isinstance(ann, tuple):
+            line += f" @ learn {hx(bssid)} {hx(sta)} {hx(ann[1].ptk)} {1 if ann[1].ccmp else 0}"
+        elif ann == "learn" and att is not None:
             line += f" @ learn {hx(bssid)} {hx(sta)} {hx(att.ptk)} {1 if att.ccmp else 0}"
         elif ann == "nolearn":
             line += " @ nolearn"
